@@ -55,7 +55,7 @@ def table_asbuilt():
     seeded = {}
     for f in sorted(glob.glob(os.path.join(VERIF, "seeded", "*", "meta.json"))):
         m = json.load(open(f))
-        seeded.setdefault(m["property"], []).append("%s: %s" % (m["id"], m["detection"]["result"]))
+        seeded.setdefault(m["property"], []).append((m["id"], m["detection"]["result"]))
     out = []
     for pid in sorted(checks.CHECKS):
         cfg = checks.CHECKS[pid]
@@ -85,7 +85,13 @@ def table_asbuilt():
             out.append("* last recorded run (%s): %s evaluations, %s distinct signatures" % (
                 ev.get("tier", cov.get("tier", "?")), cov.get("evaluations", "?"), cov.get("distinct_nontrivial", "?")))
         out.append("* limits / trusted base: " + cl.get("note", "-"))
-        out.append("* findings: %d fixed, %d open; seeded changes: %s" % (nfix, nopen, "; ".join(seeded.get(pid, [])) or "-"))
+        sl = seeded.get(pid, [])
+        ndet = sum(1 for _, r in sl if r.startswith("DETECTED"))
+        stxt = "%d of %d detected by `bin/vcheck %s` (quick tier): %s" % (ndet, len(sl), pid, ", ".join(i for i, _ in sl)) if sl else "-"
+        missed = [i for i, r in sl if not r.startswith("DETECTED")]
+        if missed:
+            stxt += "; NOT detected: " + ", ".join(missed)
+        out.append("* findings: %d fixed, %d open; seeded changes: %s" % (nfix, nopen, stxt))
         out.append("")
     return "\n".join(out)
 
